@@ -311,14 +311,21 @@ def build(cls, label, mode, cfg=None):
             val = SymVal(nm) if mode == "sym" else concrete_value(
                 cls, fld.name, cfg)
         elif kind == CHILD:
-            val = mk_opaque_array(nm, mode, rank=cfg.get("rank", 1))
+            val = mk_opaque_array(nm, mode, rank=cfg.get(
+                "child_rank", {}).get(fld.name, cfg.get("rank", 1)))
         elif kind == CONTAINER:
             val = mk_opaque_container(nm, mode)
         elif kind == FUNCTION:
             val = mk_opaque_function(nm, mode)
         elif kind == CHILDREN:
+            shared = None
+            if mode != "sym" and cfg.get("same_shape_children", True):
+                shared = tuple(ctx().fresh_int(f"{nm}_n{d}")
+                               for d in range(cfg.get("rank", 1)))
+                for n_ in shared:
+                    ctx().assume(n_.t >= 0)
             val = tuple(mk_opaque_array(f"{nm}[{i}]", mode,
-                                        rank=cfg.get("rank", 1))
+                                        rank=cfg.get("rank", 1), shape=shared)
                         for i in range(cfg.get("n_children", 2)))
         elif kind == SHAPE:
             ents = []
@@ -332,18 +339,25 @@ def build(cls, label, mode, cfg=None):
             val = tuple(ents)
         elif kind == INDICES:
             ents = []
+            ishape = None
+            if mode != "sym":
+                ishape = (ctx().fresh_int(f"{nm}_B"),)
+                ctx().assume(ishape[0].t >= 0)
             for i, k in enumerate(cfg.get("indices", ["int", "slice", "arr"])):
                 if k == "int":
                     ents.append(ctx().fresh_int(f"{nm}[{i}]"))
                 elif k == "slice":
+                    st = ctx().fresh_int(f"{nm}[{i}].step")
+                    if mode != "sym":
+                        ctx().assume(st.t != 0)     # valid NormalizedSlice
                     ents.append(NormalizedSlice(
                         ctx().fresh_int(f"{nm}[{i}].start"),
-                        ctx().fresh_int(f"{nm}[{i}].stop"),
-                        ctx().fresh_int(f"{nm}[{i}].step")))
+                        ctx().fresh_int(f"{nm}[{i}].stop"), st))
                 elif k == "none":
                     ents.append(None)
                 else:
-                    ents.append(mk_opaque_array(f"{nm}[{i}]", mode, rank=1))
+                    ents.append(mk_opaque_array(f"{nm}[{i}]", mode, rank=1,
+                                                shape=ishape))
             val = tuple(ents)
         elif kind in (CHILDMAP, CHILDMAP_S):
             from constantdict import constantdict
@@ -352,7 +366,8 @@ def build(cls, label, mode, cfg=None):
                 d[k] = mk_opaque_array(f"{nm}[{k}]", mode,
                                        rank=cfg.get("rank", 1))
             if kind == CHILDMAP_S and cfg.get("scalar_key", True):
-                d["scalar"] = SymVal(f"{nm}[scalar]") if mode == "sym" else 3
+                d[cfg.get("scalar_key_name", "scalar")] = SymVal(
+                    f"{nm}[scalar]") if mode == "sym" else 3
             val = constantdict(d)
         elif kind == NESTED:
             nb = build(nested_class(fld), nm, mode, cfg)
